@@ -234,7 +234,7 @@ class Spec:
             extra = (inner.focus_position if inner.contents else None, tuple(getattr(w, "edit_pos", None) for w, _ in inner.contents),
                      tuple(getattr(w, "edit_text", None) for w, _ in inner.contents))
         return (sc._trim_top, sc._scroll_action, sc._forward_keypress, sc._old_cursor_coords, st.size_i, st.variant, extra,
-                getattr(st.top, "_original_widget_size", None))
+                getattr(st.top, "_original_widget_size", None), st.bar, getattr(st.top, "_scrollbar_width", None))
 
     def ops(self, cfg, st):
         out = [("key", k) for k in KEYS]
@@ -242,6 +242,11 @@ class Spec:
         out += [("pos", p) for p in POSITIONS]
         out += [("resize", i) for i in range(len(SIZES)) if i != st.size_i]
         out.append(("content",))
+        if st.bar:
+            # options reassigned on the live ScrollBar; the wrapped widget replaced
+            out += [("barwidth", v) for v in (0, -1, 1, 2) if max(1, v) != st.bar[1] or v < 1]
+            out.append(("barside",))
+            out.append(("rewrap",))
         # two inputs without a render in between (several keys read in one batch, or application code followed by a key)
         firsts = [("pos", -100), ("pos", 100), ("pos", 2), ("content",)] + [("resize", i) for i in range(len(SIZES)) if i != st.size_i]
         firsts += [("key", k) for k in ("up", "down", "page down", "end")]
@@ -290,6 +295,19 @@ class Spec:
                 sc.set_scrollpos(op[1])
             elif op[0] == "resize":
                 st.size_i = op[1]
+            elif op[0] == "barwidth":
+                st.top.scrollbar_width = op[1]
+                st.bar = (st.bar[0], max(1, op[1]))
+            elif op[0] == "barside":
+                side = "left" if st.bar[0] == "right" else "right"
+                st.top.scrollbar_side = side
+                st.bar = (side, st.bar[1])
+            elif op[0] == "rewrap":
+                st.variant = 1 - st.variant
+                st.inner = mk_inner(st.kind, st.variant)
+                st.rec = KeyRec(st.inner)
+                st.sc = urwid.Scrollable(st.inner)
+                st.top.original_widget = st.sc
             elif op[0] == "content":
                 st.variant = 1 - st.variant
                 new = mk_inner(st.kind, st.variant)
@@ -636,7 +654,7 @@ def run(tier, R):
         "distinct_nontrivial": len(R.ctx.sets.get("nontrivial", ())),
         "rule": f"BFS depth {depth} from {res['configs']} configurations ({len(CONTENTS)} contents: Text of 1/3/7 lines, wrapping Text, Pile with Edit, Pile of icons, fixed BigText; "
         "alone under Scrollable and under ScrollBar right/left width 1/2; 7 initial sizes incl. 1-row and 1-column views) over 7 keys, wheel up/down, set_scrollpos in "
-        f"{POSITIONS}, resize to every other size, content change (longer/shorter); dedup on the complete Scrollable state; every state rendered and compared with the wrapped "
+        f"{POSITIONS}, resize to every other size, content change (longer/shorter), scrollbar_width / scrollbar_side reassigned (also to 0 and -1), the wrapped Scrollable replaced; dedup on the complete Scrollable state; every state rendered and compared with the wrapped "
         f"widget's own rendering; plus a complete set_scrollpos sweep for {len(sweeps)} (content, bar, size) triples and {len(lbt)} ScrollBar(ListBox) walks. "
         "non-trivial = distinct (content, bar, size, variant, position shown)",
         "exhaustive": not res["capped"] and not lres["capped"],
